@@ -135,6 +135,11 @@ pub struct Plan {
     /// The updater installs this image at the path right before this load's `open` binds.
     #[serde(default)]
     pub replace_before_open: Option<usize>,
+    /// The source can be read ONCE (a pipe behind /dev/fd/N or a process substitution): the
+    /// first open of this load delivers the content, every later open of the same load finds
+    /// nothing left (immediate end of file).
+    #[serde(default)]
+    pub one_shot: bool,
 }
 
 impl Plan {
@@ -395,6 +400,13 @@ fn gen_plan(rng: &mut Rng, info: &PoolInfo, kinds: u32, density: u64, n_pool_cho
     }
     if kinds & K_REPLACE_MID != 0 && rng.chance(1, 8) {
         p.replace_before_open = Some(*rng.pick(n_pool_choices));
+    }
+    if kinds & K_SHORT != 0 && p.replace_at.is_none() && p.replace_before_open.is_none() && rng.chance(1, 8) {
+        // (never together with an error: a loader that re-opens in order to RETRY would find
+        // the source drained through no fault of its own design; only re-opening a healthy source
+        // is judged here)
+        p.one_shot = true;
+        return p;
     }
     // density/8 is the probability that this load carries an error-returning event at all.
     if !rng.chance(density, 8) {
